@@ -250,6 +250,10 @@ def kind(c):
     return 'id' if c.endswith('_id') and c != 'data_id' else 'param'
 
 
+def kind2(c):
+    return 'omitted' if c is None else 'list' if isinstance(c, list) else 'column'
+
+
 FIN_N = [None, 'min', 1, 2, 3]
 FIN_L_FULL = [None, 'learner_id', 'family', 'lr', ['family', 'lr'], ['learner_id', 'evaluator_id']]     # 'lr': level order differs from id order
 FIN_P_FULL = [None, 'environment_id', 'data_id', ['data_id', 'seed'], ['environment_id', 'evaluator_id']]
@@ -483,7 +487,7 @@ class C18(Check):
                     alt, _ = model_fin(M, n, l, p, levels_from_table=True)
                     alt_ok = alt != exp_evals and self.same_evals(got_evals, alt)
                 if not alt_ok:
-                    self.classify_fin(M, got_evals, exp_evals, why, comp, feat + ctx, step, rec)
+                    self.classify_fin(M, got_evals, exp_evals, why, comp, feat + ctx, step, rec, ctx)
                     return None, None
                 exp_evals = alt
         elif kindname == 'where':
@@ -535,7 +539,7 @@ class C18(Check):
     def same_evals(got, exp):
         return got.keys() == exp.keys() and all(sorted(got[k]) == exp[k] for k in exp)
 
-    def classify_fin(self, M, got, exp, why, comp, feat, step, rec):
+    def classify_fin(self, M, got, exp, why, comp, feat, step, rec, ctx=''):
         inp = M.evals
         desc = f'{step} on evaluations (env,lrn,val)->length {self.lens_of(inp)}'
         for k in sorted(got):
@@ -544,8 +548,8 @@ class C18(Check):
         extra = sorted(set(got) - set(exp))
         if extra:
             w = why[extra[0]]
-            if w.startswith('pairing:'):
-                rec.violation(f'{comp}|kept a pairing group with {w[8:]}|{feat}', f'{desc}: kept {sorted(got)}, expected {sorted(exp)}')
+            if w.startswith('pairing:'):       # the mode is specific; n and the kind of column are not discriminating
+                rec.violation(f'{comp}|kept a pairing group with {w[8:]}|l={kind2(step[2])} p={kind2(step[3])}{ctx}', f'{desc}: kept {sorted(got)}, expected {sorted(exp)}')
             else:
                 rec.violation(f'{comp}|kept an evaluation shorter than n|{feat}', f'{desc}: kept {self.lens_of(got)}, expected {self.lens_of(exp)}')
             return
@@ -626,6 +630,18 @@ class C18(Check):
         rec.nontrivial = True
         rec.outcome(('raw', len(X), len(data), sum(len(v) for v in cells.values())))
 
+    @staticmethod
+    def fin_sig(M, fl, step):
+        """Outcome of one where_fin call on a fresh Result with content M: the exception type or the four tables."""
+        try:
+            out = getattr(build(M, reverse=bool(fl)), step[4] if len(step) > 4 else 'where_fin')(step[1], step[2], step[3])
+            e, l, v, rows = readback(out)
+            return (sorted(map(repr, e)), sorted(map(repr, l)), sorted(map(repr, v)), sorted(rows))
+        except Unreadable:
+            return ('unreadable',)
+        except Exception as ex:     # noqa
+            return ('exc', type(ex).__name__)
+
     def simplify_key(self, M, fl, step, rec, before, ctx):
         """Greedy: the simplest arguments of the failing step that still fail in the same mode name the key (a stable,
         minimal discriminating feature, so that one root cause does not fan out over unrelated argument kinds)."""
@@ -678,14 +694,18 @@ class C18(Check):
         k0, w0 = rec.violations[before]
         mode = k0.split('|')[1]
         if bool(step[2]) != bool(step[3]):
-            # only one of l / p given: if the call with the documented default spelled out behaves, the failure (whatever
-            # its mode) is "the omitted argument does not default": one key per omitted argument
-            r3 = _Rec()
+            # only one of l / p given: compare with the same call with the documented default spelled out.  A different
+            # outcome (whatever the failure mode) is "the omitted argument does not default": one key per omitted argument;
+            # the same outcome means the spelled-out call is wrong in the same way and names the key.
             expl = [step[0], step[1], step[2] or 'learner_id', step[3] or 'environment_id'] + list(step[4:])
-            self.do_step(fresh(), M, expl, fl, r3, '')
-            if not r3.violations:
+            if self.fin_sig(M, fl, step) != self.fin_sig(M, fl, expl):
                 rec.violations[before:] = [(f'where_fin|omitted argument does not default to learner_id / environment_id|only {"l" if step[2] else "p"} given{ctx}',
-                                            f'{w0}  [{mode}; the same call with l={expl[2]!r}, p={expl[3]!r} spelled out is correct]')]
+                                            f'{w0}  [{mode}; differs from the same call with l={expl[2]!r}, p={expl[3]!r} spelled out]')]
+                return out, newM
+            r3 = _Rec()
+            self.step_checked(fresh(), M, expl, fl, r3, ctx)
+            if r3.violations:
+                rec.violations[before:] = [(r3.violations[0][0], w0)]
                 return out, newM
         self.simplify_key(M, fl, step, rec, before, ctx)
         return out, newM
